@@ -21,6 +21,9 @@ import (
 	"github.com/smartcontractkit/chainlink-ccip/execute/tokendata"
 	"github.com/smartcontractkit/chainlink-ccip/internal/mocks"
 	"github.com/smartcontractkit/chainlink-ccip/internal/plugincommon"
+	"github.com/smartcontractkit/chainlink-ccip/internal/plugincommon/discovery"
+	"github.com/smartcontractkit/chainlink-ccip/pkg/consts"
+	readerpkg "github.com/smartcontractkit/chainlink-ccip/pkg/reader"
 	cciptypes "github.com/smartcontractkit/chainlink-ccip/pkg/types/ccipocr3"
 	"github.com/smartcontractkit/chainlink-ccip/pluginconfig"
 	plugintypes2 "github.com/smartcontractkit/chainlink-ccip/plugintypes"
@@ -123,7 +126,14 @@ func vC13Plugin(me int, costly bool) *Plugin {
 		// the default calculators over a reader that answers with zero values (nil big integers, empty maps)
 		cm = costlymessages.NewObserverWithDefaults(mocks.NullLogger, true, rd, 0.5, vC13Gas{})
 	}
+	var disc *discovery.ContractDiscoveryProcessor
+	if vC13Disc > 0 {
+		var cr readerpkg.CCIPReader = rd
+		disc = discovery.NewContractDiscoveryProcessor(mocks.NullLogger, &cr, hc, vC13Dest, 1, m)
+	}
 	return &Plugin{
+		discovery:             disc,
+		contractsInitialized:  vC13Disc == 1,
 		reportingCfg:          ocr3types.ReportingPluginConfig{F: 1, N: vC13N, OracleID: commontypes.OracleID(me)},
 		offchainCfg:           pluginconfig.ExecuteOffchainConfig{BatchGasLimit: 10_000_000},
 		destChain:             vC13Dest,
@@ -139,6 +149,9 @@ func vC13Plugin(me int, costly bool) *Plugin {
 		lggr:                  mocks.NullLogger,
 	}
 }
+
+// vC13Disc: 0 = no discovery processor, 1 = discovery enabled and contracts initialised, 2 = enabled, fresh instance
+var vC13Disc = 0
 
 func vC13Enc(v any) []byte {
 	b, err := json.Marshal(v)
@@ -170,8 +183,14 @@ func TestVerif_C13_exec(t *testing.T) {
 		emitted++
 	}
 	w := vC13World()
+	defer func() { vC13Disc = 0 }()
+	for _, disc := range []int{0, 1, 2} {
+	vC13Disc = disc
 	for _, state := range []exectypes.PluginState{exectypes.GetCommitReports, exectypes.GetMessages, exectypes.Filter} {
 		scn := string(state)
+		if disc > 0 {
+			scn = fmt.Sprintf("disc%d/%s", disc, scn)
+		}
 		prev := exectypes.Outcome{}
 		obs := make([]exectypes.Observation, vC13N)
 		switch state {
@@ -228,6 +247,22 @@ func TestVerif_C13_exec(t *testing.T) {
 				for _, ch := range vC13Sources {
 					obs[o].Nonces[ch] = map[string]uint64{"0x01": 9}
 				}
+			}
+		}
+		for o := range obs {
+			obs[o].Contracts.FChain = map[cciptypes.ChainSelector]int{vC13Dest: 1}
+			obs[o].Contracts.Addresses = readerpkg.ContractAddresses{
+				consts.ContractNameOnRamp:       map[cciptypes.ChainSelector]cciptypes.UnknownAddress{},
+				consts.ContractNameNonceManager: map[cciptypes.ChainSelector]cciptypes.UnknownAddress{vC13Dest: {0xD1}},
+				consts.ContractNameRMNRemote:    map[cciptypes.ChainSelector]cciptypes.UnknownAddress{vC13Dest: {0xD2}},
+				consts.ContractNameFeeQuoter:    map[cciptypes.ChainSelector]cciptypes.UnknownAddress{vC13Dest: {0xD3}},
+				consts.ContractNameRouter:       map[cciptypes.ChainSelector]cciptypes.UnknownAddress{},
+			}
+			for _, ch := range vC13Sources {
+				obs[o].Contracts.FChain[ch] = 1
+				obs[o].Contracts.Addresses[consts.ContractNameOnRamp][ch] = cciptypes.UnknownAddress{byte(ch), 0xAA}
+				obs[o].Contracts.Addresses[consts.ContractNameFeeQuoter][ch] = cciptypes.UnknownAddress{byte(ch), 0xFE}
+				obs[o].Contracts.Addresses[consts.ContractNameRouter][ch] = cciptypes.UnknownAddress{byte(ch), 0xB0}
 			}
 		}
 		prevB, _ := prev.Encode()
@@ -365,5 +400,5 @@ func TestVerif_C13_exec(t *testing.T) {
 			run(scn, 6, tag, "raw", 5, "ShouldAccept", func() { _, _ = vC13Plugin(1, false).ShouldAcceptAttestedReport(ctx, 5, ri) })
 			run(scn, 6, tag, "raw", 6, "ShouldTransmit", func() { _, _ = vC13Plugin(1, false).ShouldTransmitAcceptedReport(ctx, 5, ri) })
 		}
-	}
+	}	}
 }
